@@ -381,7 +381,7 @@ def useRegister (noReg : Bool) (f : Reg.File) (name : String) (isInt : Bool) (v 
 def useRegisters (noReg : Bool) (f : Reg.File) : List (String × Bool) → Nat → RNode → Reg.Out (List Decision × RNode)
   | [], _, body => .ok ([], body)
   | (name, isInt) :: rest, i, body =>
-    -- `!shadowed`: a parameter that a LATER parameter of the same name shadows stays a plain variable (repo fix 16bb0de:
+    -- `!shadowed`: a parameter that a LATER parameter of the same name shadows stays a plain variable (repo fix a353195:
     -- the last one wins, as without registers)
     let isInt := isInt && !(rest.any fun p => p.1 == name)
     match useRegister noReg f name isInt i body with
